@@ -96,6 +96,36 @@ group_body.cname = 'Orificing._group/loop-body'
 group_body.run_kw = dict(max_paths=300)
 
 
+def group_prefix(S, cfg):
+    """the statements of _group before the while loop, on arbitrary (unsorted, possibly nearly equal) parameters: what
+    enters the loop is a permutation of the rows handed in - every assembly with its own value - in descending order of
+    the parameter itself (exactly: values that differ by any amount are ordered), which is what the loop's contract
+    assumes and what makes the groups ordered"""
+    from dassh import orificing
+    n = cfg['n']
+    o = _orif(S, cfg.get('n_groups', 2))
+    # any real values, any order; small mutual distances are not excluded
+    vals = [S.pos(f'param[{i}]', 1e4, 1e6) for i in range(n)]
+    if cfg.get('near'):
+        # the second value lies within a small distance above the first (no lower bound on the distance)
+        eps = S.pos('eps', 1e-7, 1e-4)
+        vals[1] = vals[0] + eps
+    params = np.array([[i, vals[i]] for i in range(n)], dtype=object if S.mode == 'sym' else float)
+    cut = loopcut.Cut(orificing.Orificing._group, 0, kind='While')
+    loc = cut.run_prefix(self=o, params=params)
+    out = loc['params']
+    S.holds('sort.shape_kept', tuple(out.shape) == (n, 2))
+    ids = [int(out[k, 0]) for k in range(n)]
+    S.holds('sort.permutation_of_assemblies', sorted(ids) == list(range(n)))
+    for k in range(n):
+        S.eq(f'sort.row_keeps_its_value[{k}]', out[k, 1], vals[ids[k]])
+    for k in range(n - 1):
+        S.le(f'sort.descending[{k}]', out[k + 1, 1], out[k, 1])
+    S.holds('canary.sort_keeps_input_order', ids == list(range(n)), canary=True)
+group_prefix.cname = 'Orificing._group/prefix'
+group_prefix.run_kw = dict(max_paths=400, check_div=False)
+
+
 def group_suffix(S, cfg):
     """the statements after the while loop, from every state in which the loop can stop:
     either exactly the requested number of groups is returned or the run stops with an error"""
@@ -293,6 +323,7 @@ distribute_prefix.run_kw = dict(check_div=False)
 
 def configs(tier):
     out = [(check_new_group, dict(n=2)),
+           (group_prefix, dict(n=3)), (group_prefix, dict(n=3, near=True)),
            (group_body, dict(n=4, n_groups=2)), (group_body, dict(n=4, n_groups=3)),
            (group_suffix, dict(n=4, n_groups=3, n_grp=3, iter=5)),
            (group_suffix, dict(n=4, n_groups=3, n_grp=4, iter=1000)),
